@@ -413,6 +413,8 @@ def run(repo, rep):
     rep.floor('C04.e', n_e, 4)
 
     _normalisation(repo, rep)
+    _hoisting(repo, rep)
+    _align(repo, rep)
     _constructors(repo, rep)
     _hardline_in_flat(repo, rep, ms)
     _renderer(repo, rep)
@@ -627,6 +629,120 @@ def _after_if_nonempty_return(fn, ret):
             from engine.astutil import always_exits
             return always_exits(prev.body) and not prev.orelse and isinstance(prev.test, ast.Name)
     return False
+
+
+# --------------------------------------------------------------------------- C04.k
+def _hoisting(repo, rep):
+    """always_break content forces every enclosing group to break: normalisation hoists an
+    AlwaysBreak child out of Concat / Fill / Nest / Group, and keeps it on every return path"""
+    m = repo.module('doctypes')
+    n = 0
+    for cname in ('Concat', 'Fill'):
+        ci = m.classes.get(cname)
+        nm = ci.methods.get('normalize') if ci else None
+        if nm is None:
+            raise AnalysisError('%s.normalize vanished' % cname)
+        flags = [src(s.targets[0]) for s in ast.walk(nm.node) if isinstance(s, ast.Assign) and src(s.value) == 'True'
+                 and isinstance(s.targets[0], ast.Name)]
+        n += 1
+        if not flags:
+            rep.fail('C04.k', '%s.normalize:records-forced-break' % cname, nm.where,
+                     '%s.normalize no longer records that a child was an AlwaysBreak' % cname)
+            continue
+        flag = flags[0]
+        g = Guards(nm.node)
+        # the flag is set exactly where an AlwaysBreak child is unwrapped
+        sets = [s for s in ast.walk(nm.node) if isinstance(s, ast.Assign) and src(s.targets[0]) == flag and src(s.value) == 'True']
+        rep.check(all(any(f.pol and 'AlwaysBreak' in f.text and 'isinstance' in f.text for f in g.of(s)) for s in sets),
+                  'C04.k', '%s.normalize:records-forced-break' % cname, nm.where, 'flag set when an AlwaysBreak child is met',
+                  '%s.normalize sets %s outside the isinstance(child, AlwaysBreak) case' % (cname, flag))
+        loop = [s for s in nm.node.body if isinstance(s, ast.For)]
+        tail = nm.node.body[nm.node.body.index(loop[0]) + 1:] if loop else nm.node.body
+        for p in enumerate_paths(tail, '__none__', {}):
+            rets = [e for e in p.events if e[0] == 'return']
+            if not rets:
+                continue
+            val = rets[-1][1]
+            tested = [pol for t, pol in p.conds if t == flag]
+            n += 1
+            if val == 'NIL':
+                rep.ok('C04.k', '%s.normalize:return[%s]' % (cname, p.cond_text()[:60]), nm.where, 'empty result')
+                continue
+            ok = (tested and tested[-1] is True and val.startswith('AlwaysBreak(')) or (tested and tested[-1] is False and not val.startswith('AlwaysBreak('))
+            rep.check(ok, 'C04.k', '%s.normalize:return[%s]' % (cname, p.cond_text()[:60]), '%s:%d' % (m.relpath, rets[-1][2]),
+                      'result wrapped in AlwaysBreak exactly when a child forced a break',
+                      '%s.normalize returns %s on the path (%s) without consulting / honouring %s: an always_break child no longer '
+                      'forces the enclosing groups to break' % (cname, val[:60], p.cond_text()[:120], flag), nontrivial=True)
+    ci = m.classes.get('Nest')
+    nm = ci.methods.get('normalize') if ci else None
+    if nm is not None:
+        g = Guards(nm.node)
+        rets = [r for r in ast.walk(nm.node) if isinstance(r, ast.Return) and r.value is not None]
+        hoisted = [r for r in rets if src(r.value).startswith('AlwaysBreak(Nest(self.indent')
+                   and any(f.pol and 'isinstance' in f.text and 'AlwaysBreak' in f.text for f in g.of(r))]
+        n += 1
+        rep.check(len(hoisted) == 1, 'C04.k', 'Nest.normalize:hoists', nm.where, 'AlwaysBreak hoisted out of Nest',
+                  'Nest.normalize no longer returns AlwaysBreak(Nest(indent, inner.doc)) for an always-broken child', nontrivial=True)
+    for cname in ('Group', 'AlwaysBreak'):
+        ci = m.classes.get(cname)
+        nm = ci.methods.get('normalize') if ci else None
+        if nm is None:
+            continue
+        g = Guards(nm.node)
+        rets = [r for r in ast.walk(nm.node) if isinstance(r, ast.Return) and r.value is not None
+                and any(f.pol and 'isinstance' in f.text and 'AlwaysBreak' in f.text for f in g.of(r))]
+        n += 1
+        rep.check(len(rets) == 1 and isinstance(rets[0].value, ast.Name), 'C04.k', '%s.normalize:keeps-forced-break' % cname, nm.where,
+                  'an always-broken child is returned as is (group dissolved / no double wrapping)',
+                  '%s.normalize no longer returns the always-broken child itself' % cname, nontrivial=True)
+    rep.floor('C04.k', n, 8)
+
+
+# --------------------------------------------------------------------------- C04.j
+def _align(repo, rep):
+    docm = repo.module('doc')
+    al = docm.funcs.get('align')
+    n = 0
+    if al is None:
+        raise AnalysisError('doc.align vanished')
+    ev = [f for q, f in docm.funcs.items() if f.parent is al]
+    n += 1
+    if len(ev) != 1:
+        rep.fail('C04.j', 'align:evaluator', al.where, 'align no longer defines one contextual evaluator')
+    else:
+        e = ev[0]
+        rets = [r for r in ast.walk(e.node) if isinstance(r, ast.Return) and r.value is not None]
+        ok = False
+        detail = [src(r.value) for r in rets]
+        if len(rets) == 1 and isinstance(rets[0].value, ast.Call) and call_name(rets[0].value) == 'Nest' and len(rets[0].value.args) == 2:
+            try:
+                ok = form(rets[0].value.args[0]) == atom('column').add(atom('indent').scale(-1)) and \
+                    src(rets[0].value.args[1]) == al.params[0]
+            except NotLinear:
+                ok = False
+        rep.check(ok and e.params[:2] == ['indent', 'column'], 'C04.j', 'align:nest-by-column-minus-indent', e.where,
+                  'align nests by (column - indent)',
+                  'align evaluates to %s: continuation lines of an aligned block must be indented to the column where it '
+                  'started, i.e. Nest(column - indent, doc)' % detail, nontrivial=True)
+        n += 1
+        rep.check(any(isinstance(c, ast.Call) and call_name(c) == 'contextual' and src(c.args[0]) == e.name for c in ast.walk(al.node)),
+                  'C04.j', 'align:contextual', al.where, 'align is evaluated at layout time', 'align no longer returns contextual(evaluator)')
+    hg = docm.funcs.get('hang')
+    if hg is not None:
+        n += 1
+        rets = [r for r in ast.walk(hg.node) if isinstance(r, ast.Return) and r.value is not None]
+        t = src(rets[0].value).replace(' ', '').replace('\n', '') if rets else ''
+        rep.check(t in ('align(Nest(%s,validate_doc(%s)))' % (hg.params[0], hg.params[1]), 'align(nest(%s,%s))' % (hg.params[0], hg.params[1]),
+                        'align(Nest(%s,%s))' % (hg.params[0], hg.params[1])),
+                  'C04.j', 'hang:align-of-nest', hg.where, 'hang(i, d) = align(nest(i, d))', 'hang returns %s' % t, nontrivial=True)
+    nf = docm.funcs.get('nest')
+    if nf is not None:
+        n += 1
+        rets = [r for r in ast.walk(nf.node) if isinstance(r, ast.Return) and r.value is not None]
+        t = src(rets[0].value).replace(' ', '') if rets else ''
+        rep.check(t in ('Nest(%s,validate_doc(%s))' % (nf.params[0], nf.params[1]), 'Nest(%s,%s)' % (nf.params[0], nf.params[1])),
+                  'C04.j', 'nest:amount-and-doc', nf.where, 'nest(i, d) = Nest(i, d)', 'nest returns %s' % t, nontrivial=True)
+    rep.floor('C04.j', n, 4)
 
 
 # --------------------------------------------------------------------------- C04.g
